@@ -14,34 +14,55 @@ def excluded_from_recording(F, b, rec_block):
     kind and on the directive variant are collected.  Independent of how the test is spelt (inline, helper, if/match)."""
     names = tables.variant_names(F, DIRECTIVE)
     res = {"excluded": None, "instr_recorded": None}
-    want = lambda x: x.startswith("discr(") and (x.endswith(" as Directive.0)") or x.endswith(".nucleus)"))
+    # every decision on the statement's nucleus (kind, directive variant, and anything deeper such as the operand kind of
+    # a .fill) on every path to the recording block; after folding and reduction a variant counts as recorded only when no
+    # deeper decision restricts it (a variant recorded for some operands only is reported as partial)
+    want = lambda x: x.startswith("discr(") and ".nucleus" in x
     pcs = nf.path_conditions(b, rec_block, want, track_consts=True, else_sets=True)
     if not pcs:
         return res
-    rec = set()
-    instr = False
+    terms = set()
     for pc in pcs:
         r = nf.resolve_labels(pc)
-        if r is None:
-            continue                                        # infeasible combination of decisions
-        nuc = [v for d, v in r.items() if d.endswith(".nucleus)")]
-        dirs = [v for d, v in r.items() if d.endswith(" as Directive.0)")]
-        if len(nuc) != 1 or len(dirs) > 1:
+        if r is not None:
+            terms.add(frozenset((d, v[1] if v[0] == "is" else "!{%s}" % ",".join(sorted(v[1]))) for d, v in r.items()))
+    terms = nf.reduce_dnf(terms, {})
+    rec = set()
+    instr = False
+    partial = set()
+    for t in terms:
+        nuc = [l for d, l in t if d.endswith(".nucleus)")]
+        dirs = [l for d, l in t if d.endswith(" as Directive.0)")]
+        deeper = [d for d, l in t if not d.endswith(".nucleus)") and not d.endswith(" as Directive.0)")]
+        if len(nuc) > 1 or len(dirs) > 1:
             return res
-        kind = nuc[0]
-        is_dir = kind == ("is", "1") or (kind[0] == "not" and "1" not in kind[1] and "0" in kind[1])
-        is_ins = kind == ("is", "0") or (kind[0] == "not" and "0" not in kind[1] and "1" in kind[1])
-        if is_ins and not dirs:
+        kind = nuc[0] if nuc else None
+        is_dir = kind == "1" or (kind is not None and kind.startswith("!{") and "1" not in kind[2:-1].split(",") and "0" in kind[2:-1].split(","))
+        is_ins = kind == "0" or (kind is not None and kind.startswith("!{") and "0" not in kind[2:-1].split(",") and "1" in kind[2:-1].split(","))
+        if kind is None and not dirs and not deeper:
+            instr = True
+            rec |= set(names)
+        elif is_ins and not dirs and not deeper:
             instr = True
         elif is_dir:
             if not dirs:
-                rec |= set(names)
-            elif dirs[0][0] == "is":
-                rec.add(names[int(dirs[0][1])])
+                vs = set(names)
+            elif not dirs[0].startswith("!{"):
+                vs = {names[int(dirs[0])]}
             else:
-                rec |= set(n for i, n in enumerate(names) if str(i) not in dirs[0][1])
+                ex = set(dirs[0][2:-1].split(","))
+                vs = set(n for i, n in enumerate(names) if str(i) not in ex)
+            if deeper:
+                partial |= vs
+            else:
+                rec |= vs
         else:
             return res
+    res["partial"] = sorted(partial - rec)
+    if partial - rec:
+        res["excluded"] = None
+        res["instr_recorded"] = instr
+        return res
     res["excluded"] = set(names) - rec
     res["instr_recorded"] = instr
     return res
@@ -79,7 +100,7 @@ def run(ck, ctx):
         wl = tables.word_len_rows(F)
         zero = set(k for k, v in wl.items() if v == ("const", 0))
         ck.ob("C24.1", "recorded-iff-occupies-memory", ex["excluded"] is not None and ex["excluded"] == zero,
-              "variants excluded from line recording: %s; variants with word_len == 0: %s" % (sorted(ex["excluded"] or []) or "not established", sorted(zero)), where)
+              "variants excluded from line recording: %s%s; variants with word_len == 0: %s" % (sorted(ex["excluded"] or []) or "not established", (" (recorded only for some operands: %s)" % ex.get("partial")) if ex.get("partial") else "", sorted(zero)), where)
         names = tables.variant_names(F, DIRECTIVE)
         nonzero = {k: v for k, v in wl.items() if k not in zero}
         ok_rows = set(nonzero) == set(names) - zero and all(v in (("const", 1), ("operand-value",), ("strlen+1",)) or (v[0] == "const" and v[1] >= 1) for v in nonzero.values())
